@@ -18,8 +18,10 @@ Protos == {"netrpc", "grpc", "grpcmux"}
 \* what an intruder (or the legitimate peer) brings
 Creds == {"peer_keypair", "plaintext", "tls_nocert", "tls_selfsigned", "tls_samename_otherkey"}
 
-\* which listeners exist: brokered sockets only for gRPC without multiplexing
-HasListener(l, p) == l = "main" \/ p = "grpc"
+\* which listeners exist: brokered ones only under gRPC (socket files of their own without
+\* multiplexing; streams inside the main socket with it -- only the peer can reach those, and its
+\* brokered connections must still be mutually authenticated)
+HasListener(l, p) == l = "main" \/ p \in {"grpc", "grpcmux"}
 \* the owner of a listener and the only key pair it may serve
 Owner(l) == IF l = "host_brokered" THEN "host" ELSE "plugin"
 
